@@ -100,6 +100,44 @@ fn build(dir: &str, fs: &[&str]) -> Result<String, String> {
     Ok(exe)
 }
 
+fn corpus_path() -> String {
+    format!("{}/work/c20/corpus.txt", crate::verif_dir())
+}
+
+/// the input list of the transcript's "corpus" section: the extra spaces of the input sweeps
+/// (dictionary, order hazards, length ladder, multi-byte text, two-call menu) and every
+/// likelySubtags key/value and layout locale, hex-encoded, one per line
+fn write_corpus(ctx: &Ctx) -> Result<u64, String> {
+    use crate::spaces::*;
+    let mut set: BTreeSet<Vec<u8>> = BTreeSet::new();
+    let mut words = dictionary_words();
+    let lk = super::universe::load_likely(&ctx.repo);
+    words.extend(lk.scripts.iter().filter(|s| !s.is_empty()).cloned());
+    words.extend(lk.regions.iter().filter(|s| !s.is_empty()).cloned());
+    words.extend(lk.langs.iter().filter(|s| !s.is_empty()).step_by(if ctx.quick() { 16 } else { 2 }).cloned());
+    for w in ["Zzzz", "Zyyy", "Zxxx", "Qaaa", "ZZ", "AA", "QO", "XK", "001", "419", "root", "und", "mul", "zxx"] {
+        words.push(w.to_string());
+    }
+    words.sort();
+    words.dedup();
+    set.extend(dictionary_inputs(&words));
+    set.extend(order_inputs());
+    set.extend(length_ladder(if ctx.quick() { 120 } else { 300 }, true));
+    set.extend(utf8_strings(if ctx.quick() { 3 } else { 4 }));
+    set.extend(history_menu());
+    if let Ok(txt) = std::fs::read_to_string(dir_ids_path()) {
+        for l in txt.lines() {
+            set.insert(l.as_bytes().to_vec());
+            set.insert(l.to_ascii_uppercase().replace('-', "_").into_bytes());
+            set.insert(format!("{}-u-ca-gregory-t-{}-x-a", l, l.to_ascii_lowercase()).into_bytes());
+        }
+    }
+    let _ = std::fs::create_dir_all(format!("{}/work/c20", crate::verif_dir()));
+    let txt: String = set.iter().filter(|b| !b.is_empty()).map(|b| hex(b)).collect::<Vec<_>>().join("\n");
+    std::fs::write(corpus_path(), txt).map_err(|e| e.to_string())?;
+    Ok(set.len() as u64)
+}
+
 fn dir_ids_path() -> String {
     format!("{}/work/c20/dir_ids.txt", crate::verif_dir())
 }
@@ -137,7 +175,7 @@ struct Transcript {
 }
 
 fn run_transcript(exe: &str, depth: u32) -> Result<Transcript, String> {
-    let out = std::process::Command::new(exe).env("C20_DEPTH", depth.to_string()).env("C20_DIR_IDS", dir_ids_path()).output().map_err(|e| format!("cannot run {}: {}", exe, e))?;
+    let out = std::process::Command::new(exe).env("C20_DEPTH", depth.to_string()).env("C20_DIR_IDS", dir_ids_path()).env("C20_CORPUS", corpus_path()).output().map_err(|e| format!("cannot run {}: {}", exe, e))?;
     if !out.status.success() {
         return Err(format!("{} exited with {:?}: {}", exe, out.status, String::from_utf8_lossy(&out.stderr).chars().take(500).collect::<String>()));
     }
@@ -162,6 +200,8 @@ fn chunk_lines(exe: &str, depth: u32, section: &str, chunk: u64) -> Vec<String> 
     std::process::Command::new(exe)
         .args(["--chunk", section, &chunk.to_string()])
         .env("C20_DEPTH", depth.to_string())
+        .env("C20_DIR_IDS", dir_ids_path())
+        .env("C20_CORPUS", corpus_path())
         .output()
         .map(|o| String::from_utf8_lossy(&o.stdout).lines().map(|s| s.to_string()).collect())
         .unwrap_or_default()
@@ -182,6 +222,12 @@ pub fn run_c20(ctx: &Ctx) -> Report {
             rep.extra.insert("direction_identifiers_from_cldr_data".into(), json!(n));
         }
         Err(e) => rep.engine_failures.push(format!("cannot write the direction identifier list: {}", e)),
+    }
+    match write_corpus(ctx) {
+        Ok(n) => {
+            rep.extra.insert("corpus_inputs".into(), json!(n));
+        }
+        Err(e) => rep.engine_failures.push(format!("cannot write the corpus: {}", e)),
     }
     // feature sets
     let mut sets: Vec<Vec<&str>> = vec![];
